@@ -1127,6 +1127,52 @@ func genPlacements(r *hx.Run, rng *gen.Rng, do func(string) string) {
 			prev = cur
 		}
 	}
+	// round 4: histories aimed at the ORDER of the commands of a frame and at re-upload: an image resized in place (drawn
+	// again at the same origin after a Resize, mostly to another cell size), next to a kept or moved placement of another
+	// image; then resized again (sometimes twice before it is placed: the buffer accumulates) and kept, moved or refreshed
+	ni := 80
+	if r.Thorough {
+		ni = 800
+	}
+	for c := 0; c < ni; c++ {
+		do(fmt.Sprintf("#case kitty:inplace:%d", c))
+		g := gen.Pick(rng, [][2]int{{8, 16}, {10, 20}, {4, 8}})
+		do(fmt.Sprintf("knew 40 20 %d %d", 40*g[0], 20*g[1]))
+		do(fmt.Sprintf("kimg 1 %d %d", rng.Range(30, 64), rng.Range(30, 64)))
+		do(fmt.Sprintf("kimg 2 %d %d", rng.Range(4, 20), rng.Range(4, 20)))
+		do(fmt.Sprintf("kresize 1 %d %d", rng.Range(2, 6), rng.Range(1, 3)))
+		do(fmt.Sprintf("kresize 2 %d %d", rng.Range(1, 3), rng.Range(1, 2)))
+		c1, r1, c2, r2 := rng.Range(0, 12), rng.Range(0, 12), rng.Range(20, 30), rng.Range(0, 12)
+		frame := func(resizes int, move1, move2, drop2, refresh bool) {
+			do("kclear")
+			for k := 0; k < resizes; k++ {
+				do(fmt.Sprintf("kresize 1 %d %d", rng.Range(1, 6), rng.Range(1, 3)))
+				r.Count("kitty-resize")
+			}
+			if move1 {
+				c1, r1 = rng.Range(0, 12), rng.Range(0, 12)
+			}
+			if move2 {
+				c2, r2 = rng.Range(20, 30), rng.Range(0, 12)
+			}
+			do(fmt.Sprintf("kdraw 1 %d %d", c1, r1))
+			if !drop2 {
+				do(fmt.Sprintf("kdraw 2 %d %d", c2, r2))
+			}
+			if refresh {
+				do("krefresh")
+				r.Count("frame-refresh")
+			} else {
+				do("krender")
+				r.Count("frame-render")
+			}
+		}
+		frame(0, false, false, false, false)
+		frame(1, false, rng.Chance(1, 3), rng.Chance(1, 5), rng.Chance(1, 6))
+		r.Count("kitty-resized-in-place")
+		frame(rng.Range(0, 2), rng.Chance(1, 3), rng.Chance(1, 3), rng.Chance(1, 5), rng.Chance(1, 6))
+		frame(rng.Range(0, 1), rng.Chance(1, 2), false, false, rng.Chance(1, 6))
+	}
 	// F52 end to end (repaired): terminals reporting fewer pixels than cells, or none at all
 	for i, t := range [][4]int{{80, 24, 50, 400}, {80, 24, 0, 0}, {80, 24, 640, 10}, {40, 20, 39, 19}, {40, 20, 41, 400}} {
 		do(fmt.Sprintf("#case kitty:degenerate-pixels:%d", i))
